@@ -27,12 +27,16 @@ def get_literal_expr(obj: object) -> Optional[str]:
     try:
         name = BUILTIN_TO_NAME[obj]
     except (KeyError, TypeError):
-        try:
-            return _get_complex_literal_expr(obj)
-        except _CannotBeRenderedError:
-            return None
+        name = None
 
-    return name
+    # lookup uses `==`, so Decimal(1) or IntEnum member with value 1 are found as `True`
+    if name is not None and NAME_TO_BUILTIN[name] is obj:
+        return name
+
+    try:
+        return _get_complex_literal_expr(obj)
+    except _CannotBeRenderedError:
+        return None
 
 
 def _provide_lit_expr(obj: object) -> str:
@@ -58,6 +62,8 @@ def _get_complex_literal_expr(obj: object) -> Optional[str]:  # noqa: PLR0911
         return _parenthesize("[]", obj)
 
     if type(obj) is tuple:
+        if len(obj) == 1:
+            return "(" + _provide_lit_expr(obj[0]) + ",)"
         return _parenthesize("()", obj)
 
     if type(obj) is set:
@@ -71,11 +77,11 @@ def _get_complex_literal_expr(obj: object) -> Optional[str]:  # noqa: PLR0911
         return "frozenset()"
 
     if type(obj) is slice:
-        parts = (obj.start, obj.step, obj.stop)
+        parts = (obj.start, obj.stop, obj.step)
         return "slice" + _parenthesize("()", parts)
 
     if type(obj) is range:
-        parts = (obj.start, obj.step, obj.stop)
+        parts = (obj.start, obj.stop, obj.step)
         return "range" + _parenthesize("()", parts)
 
     if type(obj) is dict:
@@ -109,4 +115,5 @@ _SINGLETONS = {None, Ellipsis, NotImplemented}
 
 
 def is_singleton(obj: object) -> bool:
-    return obj in _SINGLETONS or isinstance(obj, (bool, Enum))
+    # `obj in _SINGLETONS` requires hashable obj and uses `==`
+    return any(obj is singleton for singleton in _SINGLETONS) or isinstance(obj, (bool, Enum))
